@@ -96,7 +96,11 @@ HAcc(q)  == IF q.acc = "missing" THEN <<>> ELSE << H(20, 28, FALSE) >>
 HClen(q) == IF q.xh = "clen" THEN << H(14, 1, TRUE) >> ELSE <<>>
 HPre(q)  == IF q.xh = "extra" THEN << H(6, 9, FALSE) >> ELSE <<>>      \* Server: verif/1.0
 HPost(q) == IF q.xh = "extra" THEN << H(4, 29, FALSE) >> ELSE <<>>     \* Date: ...
-HLong(q) == IF q.long = 1 THEN << H(9, 1000, FALSE) >> ELSE <<>>       \* X-Padding: xxxx...
+\* long = 1: one 1000-byte header (past the initial 1024-byte buffer); long = 2: two 2500-byte headers, the
+\* blank line lies past 4096 bytes (the buffer has grown to 8192; also the size of a bufio window)
+HLong(q) == CASE q.long = 1 -> << H(9, 1000, FALSE) >>                 \* X-Padding: xxxx...
+              [] q.long = 2 -> << H(9, 2500, FALSE), H(10, 2500, FALSE) >>  \* X-Padding, X-Padding2
+              [] OTHER      -> <<>>
 
 Hdrs(q) ==
   HPre(q) \o
@@ -122,7 +126,9 @@ D(q) == SumDump(q, Hdrs(q), Len(Hdrs(q))) - SumLine(q, Hdrs(q), Len(Hdrs(q)))
         + (IF q.sl = "noreason" THEN 4 ELSE 0)
 
 \* ---- frames after the blank line ----
-F1Len(q) == IF q.piggy = "big" THEN 1504 ELSE 7     \* text, 1500 / 5 payload bytes
+F1Len(q) == CASE q.piggy = "big"  -> 1504        \* text, 1500 payload bytes
+              [] q.piggy = "huge" -> 6004        \* text, 6000 payload bytes (fills the grown buffer together with a long response)
+              [] OTHER            -> 7           \* text, 5 payload bytes
 F2Len == 5                                          \* binary, 3 payload bytes
 F3Len(q) == IF q.tail = "none" THEN 0 ELSE 4        \* ping / close, 2 payload bytes
 NFrames(q) == IF q.tail = "none" THEN 2 ELSE 3
@@ -160,7 +166,7 @@ CutSet(q) == {q.cuts[k].off : k \in DOMAIN q.cuts}
 \* input class of a response (used in rule keys)
 Feat(q) ==
   IF q.kind = "badurl" THEN "badurl"
-  ELSE IF q.long = 1 THEN "long"
+  ELSE IF q.long >= 1 THEN "long"
   ELSE IF Len(q.cuts) > 0 THEN "segmented"
   ELSE IF q.ws # "canon" THEN "whitespace"
   ELSE IF q.xh # "none" THEN "headers"
@@ -183,6 +189,11 @@ ProfShape ==
      m \in Modes, o \in {"canon", "rev"}, c \in {"canon", "lower", "upper"},
      w \in {"canon", "none", "wide", "tab"}, x \in {"none", "extra", "clen", "noconn"},
      l \in {0, 1}, g \in {"none", "whole"}}
+
+\* large responses with large piggy-backed frames (every growth step of the handshake buffer up to 8192)
+LargeBase == {[Base EXCEPT !.mode = m, !.ws = w, !.long = l, !.piggy = g] :
+                m \in Modes, w \in {"canon", "none"}, l \in {1, 2}, g \in {"whole", "two", "big", "huge"}}
+ProfLarge == LargeBase \cup {WithCuts(q, <<MkCut(q, c)>>) : q \in LargeBase, c \in {"hl-end", "bl-after", "f-pay"}}
 
 ProfReq == {[Base EXCEPT !.mode = m, !.xreq = r] : m \in Modes, r \in {1, 2, 3}}
 
@@ -228,7 +239,7 @@ ProfTail ==
 
 ProfBadUrl == {[Base EXCEPT !.mode = m, !.kind = "badurl"] : m \in Modes}
 
-Prof1 == ProfVerdict \cup ProfShape \cup ProfReq \cup {q \in ProfStatusLine \cup ProfMidFrame : SegOK(q)}
+Prof1 == ProfVerdict \cup ProfShape \cup ProfReq \cup {q \in ProfLarge : SegOK(q)} \cup {q \in ProfStatusLine \cup ProfMidFrame : SegOK(q)}
          \cup ProfSeg \cup ProfClose \cup ProfTail \cup ProfBadUrl
 
 \* rounds after the first: a handshake on a stream that was used before
